@@ -156,6 +156,45 @@ T = {
     needs="a pool with longs and shorts (non-zero funding rate), the victim on the paying side, at least two settlements of the same position: the second takes the whole period again",
     caught_by="C10.only_accrued_taken (the same request repeated within one block; custody compared with one predicted settlement) and C10.third_party_close",
     history="MISSED at first (custody of perpetual positions was not compared because settlements legitimately reduce it); repeated requests and the only-accrued clause added; caught since"),
+ "C11-2": dict(
+    change="x/accountedpool/keeper/hooks_perpetual.go PerpetualUpdates: an asset whose perpetual part (liabilities - custody) did not move is skipped",
+    needs="a perpetual operation that changes an asset's amm balance while its liabilities - custody stays equal: collateral top-up (leverage 0) of a LONG with base-currency collateral",
+    caught_by="C11.total_eq (stored history C11-leverage0-topup and hist mode)", history="caught at first run"),
+ "C12-2": dict(
+    change="x/commitment/types/commitments.go AddCommittedTokens: same-timestamp lock-ups merged through a helper that updates a loop COPY (range over a slice of values)",
+    needs="the same account commits the same denom twice with the same non-zero unlock time (two joins of an oracle pool in one block)",
+    caught_by="C12.lock (differential lock-up mode c12lock)", history="caught at first run"),
+ "C13-2": dict(
+    change="x/masterchef/keeper/abci.go UpdateLPRewards: CalculateProxyTVL moved before the fee collections (same change as C13-1)",
+    needs="as C13-1", caught_by="C13.block_credit, C13.solvent (stored history C13-large-fee-conversion-moves-tvl and hist mode)", history="caught at first run"),
+ "C14-2": dict(
+    change="x/commitment/keeper/msg_server_claim_vesting.go: the payout send moved inside the ELYS guard",
+    needs="a claim that releases a liquid-vested denom (MsgVestLiquid) but no ELYS: the release is recorded, nothing is paid",
+    caught_by="C14.complete, C14.conservation in mode c14 (every fourth sequence vests a liquid token)",
+    history="MISSED at first (mode c14 only vested Eden); liquid-token sequences added (same model, payout denom = the token); caught since"),
+ "C15-2": dict(
+    change="x/commitment/keeper/msg_server_claim_vesting.go: MintCoins(newClaims) (same change as C15-1)",
+    needs="as C15-1", caught_by="C15.mint_burn_sites, C15.external_conserved (stored history C15-mixed-vesting-claim and hist mode)", history="caught at first run"),
+ "C16-2": dict(
+    change="x/oracle/keeper/abci.go EndBlock: expiry cut-offs computed once with unsigned subtraction (wraps when height < LifeTimeInBlocks or time < PriceExpiryTime)",
+    needs="block height below LifeTimeInBlocks or unix time below PriceExpiryTime: every price, even one fed in the block, is deleted",
+    caught_by="C16.newest in mode c16", history="caught at first run"),
+ "C17-2": dict(
+    change="x/assetprofile/keeper/msg_server_add_entry.go: the 'already set' guard of the permissionless MsgAddEntry looks the entry up by Denom instead of BaseDenom",
+    needs="a MsgAddEntry from anyone with the BaseDenom of an existing (governance-owned) listing and a Denom no entry uses: the listing is overwritten",
+    caught_by="C17.existing_object_overwritten in mode c17",
+    history="MISSED at first (messages without an authority field were recorded, never judged); permissionless create messages aimed at existing objects are now judged; caught since"),
+ "C18-2": dict(
+    change="x/amm/keeper/keeper_swap_exact_amount_in.go: recover() moved into a helper called from the deferred closure (recover only works when called directly by the deferred function)",
+    needs="a swap executed in an end-blocker (fee conversion, swap queue) that panics inside the pool arithmetic: fee in an 18-decimal asset whose pool holds one base unit of it",
+    caught_by="C18.block_ok in scenario c18-fee-conversion-panics-in-pool-math",
+    history="MISSED at first (no 18-decimal asset, no panic in pool arithmetic reachable in the worlds); scenario added; caught since"),
+ "C19-2": dict(
+    change="x/amm/types/pow_approx.go exponentialLogarithmicMethod: lnBase.MulMut(exp) (same change as C19-1)",
+    needs="as C19-1", caught_by="C19.replicas_agree in mode c19 (fresh-process replica)", history="caught at first run"),
+ "C20-2": dict(
+    change="x/tradeshield/keeper/pending_spot_order.go RemovePendingSpotOrder: decrements the counter that is also the next order id (same change as C20-1)",
+    needs="as C20-1", caught_by="C20.cancel_returns_all (stored history C20-order-id-reuse and hist mode)", history="caught at first run"),
 }
 
 root = os.path.join(os.path.dirname(os.path.dirname(os.path.abspath(__file__))), "seeded")
